@@ -305,8 +305,10 @@ func ruleCommitRule(c *eng.Ctx) {
 				sel = append(sel, in)
 			}
 		})
-		if len(take) != 1 || len(set) != 1 || len(sel) != 1 || len(enough) == 0 {
-			c.Unresolved("TakeUntil / SetHighWatermark / select / len(p.isr) < p.minISR in commitLoop")
+		if len(take) == 1 && len(set) == 1 && len(sel) == 1 && len(enough) == 0 {
+			c.Violate("min-ISR gate in commitLoop", c.Pos(take[0].(ssa.Instruction)), "commitLoop does not compare len(p.isr) with p.minISR before committing: the decision uses something other than the in-sync set read under p.mu in this iteration (e.g. a cached flag that other code updates at other times)")
+		} else if len(take) != 1 || len(set) != 1 || len(sel) != 1 {
+			c.Unresolved("TakeUntil / SetHighWatermark / select in commitLoop")
 		} else {
 			for _, tgt := range []ssa.CallInstruction{take[0], set[0]} {
 				q := &eng.PathQuery{Fn: fn, FromAfter: sel, Target: func(x ssa.Instruction) bool { return x == tgt.(ssa.Instruction) }, CutEdges: enough, CutInstr: func(x ssa.Instruction) bool { return x == sel[0] }}
